@@ -210,6 +210,14 @@ class CanonAnalysis:
                 self._assign_local(st, ast, pl["l"], rv, b, record)
                 if record and pl["l"] == 0 and st.get(0, CLEAN) == DIRTY:
                     self.ret_dirty_blocks.add(b)
+            elif pl["p"] == ["deref"] and root_kind(v.local_ty(pl["l"])) == "ref" and rv["r"] == "use":
+                # `*r = value`: the whole Uint behind the reference is replaced (`*self = self.masked()`)
+                tgt = self._mut_root_of({"o": "copy", "l": pl["l"], "p": []})
+                tgt = pl["l"] if tgt is None else tgt
+                if self._operand_dirty(st, rv["a"]):
+                    st[tgt] = DIRTY
+                else:
+                    st.pop(tgt, None)
             elif contains_uint(v.local_ty(pl["l"])) or root_kind(v.local_ty(pl["l"])):
                 # partial write of a Uint-holding aggregate (tuple field etc.)
                 if rv["r"] == "use" and self._operand_dirty(st, rv["a"]):
